@@ -622,6 +622,14 @@ Theorem json_all_is_the_flattening : forall v, J.json_all v = J.json_all_ref v.
 Proof. exact JP.json_all_is_the_flattening. Qed.
 Print Assumptions json_all_is_the_flattening.
 
+(* the name `| json` gives a nested key (subDec: prefix, "_", key -- then sanitizeLabel on the whole) is the names of the parts
+   joined with "_": a "_" (any ASCII byte) never completes a character begun in the prefix, whatever bytes the keys hold *)
+Theorem nested_name_is_the_parts_joined : forall prefix key,
+  J.label_name (J.join_key prefix key) =
+  if String.eqb prefix EmptyString then J.label_name key else (J.label_name prefix ++ "_" ++ J.label_name key)%string.
+Proof. exact JP.nested_name_is_the_parts_joined. Qed.
+Print Assumptions nested_name_is_the_parts_joined.
+
 (* `| json l1="path1", l2="path2", ...` with distinct label names, for every value tree (any nesting, duplicate members,
    arrays, paths that share prefixes, stop early or run past the document): the ONE pass jsonPathProcessor makes over the
    document with the set of paths still ahead assigns to every label exactly what following ITS path alone finds (jlookup:
